@@ -16,8 +16,8 @@ package cluster
 //@ func (*deploymentManager).do
 //@   trusted
 //@   modifies ghost ChanKind, ghost ChanPending, ghost InFlight
-//@   ensures result != nil && fresh(result) && ChanKind[result] == 1 && ChanPending[result] && InFlight == old(InFlight) + 1
-//@   ensures forall c: ref :: c != result ==> ChanKind[c] == old(ChanKind)[c] && ChanPending[c] == old(ChanPending)[c]
+//@   ensures result != nil && fresh(result) && InFlight == old(InFlight) + 1
+//@   ensures ChanKind == old(ChanKind)[result := 1] && ChanPending == old(ChanPending)[result := true]
 //@ func (*deploymentManager).stopMonitor
 //@   trusted
 //@ func (*deploymentManager).startMonitor
@@ -42,13 +42,13 @@ package cluster
 //@   requires [serial] InFlight == 0
 //@   requires [notd] !TdReq
 //@   modifies dm.state, ghost ChanKind, ghost ChanPending, ghost InFlight
-//@   ensures dm.state == dsDeployActive && result != nil && fresh(result) && ChanKind[result] == 1 && ChanPending[result] && InFlight == 1
-//@   ensures forall c: ref :: c != result ==> ChanKind[c] == old(ChanKind)[c] && ChanPending[c] == old(ChanPending)[c]
+//@   ensures dm.state == dsDeployActive && result != nil && fresh(result) && InFlight == 1
+//@   ensures ChanKind == old(ChanKind)[result := 1] && ChanPending == old(ChanPending)[result := true]
 //@ func (*deploymentManager).startTeardown
 //@   requires [serial] InFlight == 0
 //@   modifies dm.state, ghost ChanKind, ghost ChanPending, ghost InFlight
-//@   ensures dm.state == dsTeardownActive && result != nil && fresh(result) && ChanKind[result] == 1 && ChanPending[result] && InFlight == 1
-//@   ensures forall c: ref :: c != result ==> ChanKind[c] == old(ChanKind)[c] && ChanPending[c] == old(ChanPending)[c]
+//@   ensures dm.state == dsTeardownActive && result != nil && fresh(result) && InFlight == 1
+//@   ensures ChanKind == old(ChanKind)[result := 1] && ChanPending == old(ChanPending)[result := true]
 
 //@ func (*deploymentManager).run
 //@   nopanic explicit
